@@ -111,6 +111,7 @@ Theorem c12_multi_kotlin uc cfg st0 plan files fin :
       text = kt_render_header (kt_header_multi cfg (op_crate p)) ++ kt_write_imports cfg (op_imports p) ++
              concat (map kt_render_decl ds) /\
       c12_kt_observe_multi uc cfg (op_crate p) (op_data p) = Ok (uses, defs) /\
+      uses = c12_kt_uses ds /\ defs = c12_kt_defs (kt_header_multi cfg (op_crate p)) /\
       (c12_kt_known cfg (op_data p) = None -> c12_good uses defs = true).
 Proof.
   intros H i fname text Hn.
@@ -121,7 +122,7 @@ Proof.
   assert (Eo : c12_kt_observe_multi uc cfg (op_crate p) (op_data p) =
                Ok (c12_kt_uses ds, c12_kt_defs (kt_header_multi cfg (op_crate p)))).
   { unfold c12_kt_observe_multi. rewrite Eds. reflexivity. }
-  split; [exact Eo|]. intros Hk. exact (c12_kt_multi_file _ _ _ _ _ _ Eo Hk).
+  split; [exact Eo|]. split; [reflexivity|]. split; [reflexivity|]. intros Hk. exact (c12_kt_multi_file _ _ _ _ _ _ Eo Hk).
 Qed.
 
 (* ================================================================== Scala *)
